@@ -10,6 +10,7 @@ import (
 	"regexp"
 	"sort"
 	"strings"
+	"sync/atomic"
 	"time"
 
 	"verif/internal/harness"
@@ -27,7 +28,7 @@ type childResult struct {
 	StartedAt time.Time
 }
 
-var childSeq int
+var childSeq int64
 
 // runChild runs `bin worker <name> args...`. With race=true the race-detector
 // binary is used, reports go to log files (halt_on_error=0) and are returned.
@@ -39,8 +40,8 @@ func runChild(race bool, name string, args []string, timeout time.Duration) (*ch
 	if bin == "" {
 		return nil, fmt.Errorf("worker binary not configured (VERIF_BIN / VERIF_RACE_BIN)")
 	}
-	childSeq++
-	dir := filepath.Join(harness.Scratch(), fmt.Sprintf("child-%d-%d", os.Getpid(), childSeq))
+	seq := atomic.AddInt64(&childSeq, 1)
+	dir := filepath.Join(harness.Scratch(), fmt.Sprintf("child-%d-%d", os.Getpid(), seq))
 	os.MkdirAll(dir, 0o755)
 	journal := filepath.Join(dir, "journal.log")
 	racePrefix := filepath.Join(dir, "race")
